@@ -332,4 +332,47 @@ def captureTx (H : List UInt8 → List UInt8) (c : Cell) : Outcome TxCapture :=
 
 def TxCapture.sourceBoc {β} (serialize : Cell → Outcome β) (t : TxCapture) : Outcome β := serialize t.source
 
+/-! ### one Transaction variable reused: the state machine over decode / SourceBoc / Hash
+
+`Transaction.UnmarshalTLB` overwrites the hash and the closure that produces the source BOC on every decode;
+`SourceBoc()` and `Hash()` do not change the variable. So at any moment both are functions of the LAST successfully
+captured source cell. (A decode whose field decoding fails after the capture still has replaced hash and closure;
+the model's `decode` is the capture, the only part of UnmarshalTLB relevant to the identity hash.) -/
+
+inductive TxOp where
+  | decode (c : Cell)
+  | sourceBoc
+  | hash
+
+/-- the variable: nothing decoded yet, or the last capture -/
+abbrev TxVar := Option TxCapture
+
+/-- one operation on the variable; a failing capture (the cell cannot be hashed) leaves the variable as it was -/
+def TxVar.step (H : List UInt8 → List UInt8) (v : TxVar) : TxOp → TxVar
+  | .decode c =>
+    match captureTx H c with
+    | .ok t => some t
+    | _ => v
+  | .sourceBoc => v
+  | .hash => v
+
+def TxVar.run (H : List UInt8 → List UInt8) (v : TxVar) (ops : List TxOp) : TxVar := ops.foldl (TxVar.step H) v
+
+/-- the cell of the last decode operation of a script whose capture succeeds -/
+def lastDecoded (H : List UInt8 → List UInt8) : List TxOp → Option Cell
+  | [] => none
+  | op :: rest =>
+    match lastDecoded H rest with
+    | some c => some c
+    | none =>
+      match op with
+      | .decode c => if (captureTx H c).isOk then some c else none
+      | _ => none
+
+/-- what `SourceBoc()` returns for the variable -/
+def TxVar.sourceBoc {β} (serialize : Cell → Outcome β) (v : TxVar) : Outcome β :=
+  match v with
+  | some t => t.sourceBoc serialize
+  | none => .err "transaction was not unmarshalled from cell"
+
 end Tongo.Message
